@@ -1063,6 +1063,7 @@ class HandHistory(Iterable[State]):
         actions = ''
         raw_hole_cards = [['', ''] for _ in self.starting_stacks]
         hole_dealing_counts = [0 for _ in self.starting_stacks]
+        board_dealing_status = False
         hole_cards = ''
         board_cards = ''
         match_state = ''
@@ -1145,8 +1146,13 @@ class HandHistory(Iterable[State]):
                             )
 
                 if isinstance(operation, BoardDealing):
-                    actions += '/'
-                    board_cards += '/' + ''.join(map(repr, operation.cards))
+                    if not board_dealing_status:
+                        actions += '/'
+                        board_cards += '/'
+
+                    board_cards += ''.join(map(repr, operation.cards))
+
+                board_dealing_status = isinstance(operation, BoardDealing)
 
                 hole_cards = '|'.join(map(''.join, raw_hole_cards))
                 match_state = (
@@ -1198,6 +1204,7 @@ class HandHistory(Iterable[State]):
         actions = ''
         raw_hole_cards = [['', ''] for _ in self.starting_stacks]
         hole_dealing_counts = [0 for _ in self.starting_stacks]
+        board_dealing_status = False
         board_cards = ''
 
         for state in self:
@@ -1230,8 +1237,13 @@ class HandHistory(Iterable[State]):
                                 card,
                             )
                 elif isinstance(operation, BoardDealing):
-                    actions += '/'
-                    board_cards += '/' + ''.join(map(repr, operation.cards))
+                    if not board_dealing_status:
+                        actions += '/'
+                        board_cards += '/'
+
+                    board_cards += ''.join(map(repr, operation.cards))
+
+                board_dealing_status = isinstance(operation, BoardDealing)
 
         hole_cards = '|'.join(map(''.join, raw_hole_cards))
         raw_payoffs = []
